@@ -621,6 +621,7 @@ def parse_cases(tier):
             if lazyframe:
                 o.update(lazyframe=True, depth="SAD")
             out.append((_tid("P", arr, N, o), pl_frame_case, (arr, N, o)))
+    out += regex_cases(tier)
     for nan_opts in (dict(default=True, nan=True), dict(coerce="col", a_kind="float", nan=True), dict(drop=True, nan=True), dict(nan=True, lazy=True)):
         out.append((_tid("P", ["a", "b"], N, nan_opts), pl_frame_case, (["a", "b"], N, nan_opts)))
     return out
@@ -648,10 +649,65 @@ def lazy_cases(tier):
     return out
 
 
+def pl_regex_case(v, N, opts):
+    """a regex column governing two float columns, with a default / coercion / nullable flag (C03 fixpoint, C04, C06 on polars)"""
+    lazyframe = bool(opts.get("lazyframe"))
+    df = v.plframe([("x_1", "float"), ("x_2", "float"), ("b", "int", False)], N, lazy=lazyframe, nan=bool(opts.get("nan")))
+    snap = pl_snapshot(df)
+    lo = v.int("aA")
+    nullable = v.bool("nullable")
+    default = v.int("dflt") if opts.get("default") else None
+
+    def mk(parsing):
+        with warnings.catch_warnings():
+            warnings.simplefilter("ignore")
+            return ppl.DataFrameSchema({"^x_[0-9]$": ppl.Column(float, Check.ge(lo), regex=True, nullable=nullable, default=default if parsing else None),
+                                        "b": ppl.Column(int)}, strict=opts.get("strict", False))
+
+    schema = mk(True)
+
+    def run(obj, sch, lz=bool(opts.get("lazy"))):
+        with config_context(validation_depth=ValidationDepth.SCHEMA_AND_DATA):
+            return sch.validate(obj, lazy=lz)
+
+    import tmpl
+
+    cfg0 = tmpl.config_fingerprint()
+    o = H.outcome(lambda: run(df, schema))
+    asserts = [("channel", v.holds(channel_ok(o))), ("input_unchanged", pl_equal(v, df, snap)), ("config_unchanged", v.holds(tmpl.config_fingerprint() == cfg0))]
+    facts = dict(kind=o["kind"], reason=o.get("reason"), _msg=o.get("msg"))
+    if o["kind"] == "accept" and H._is_pl(o["out"]):
+        out = o["out"]
+        asserts.append(("kind_preserved", v.holds(same_kind(out, df))))
+        osnap = pl_snapshot(out)
+        o2 = H.outcome(lambda: run(out, mk(False), False))
+        asserts.append(("fixpoint_conforms", v.holds(o2["kind"] == "accept")))
+        facts["strip"] = o2["kind"]
+        o3 = H.outcome(lambda: run(out, schema))
+        asserts.append(("fixpoint_accepts_again", v.holds(o3["kind"] == "accept")))
+        if o3["kind"] == "accept" and H._is_pl(o3["out"]):
+            asserts.append(("fixpoint_identity", pl_equal(v, o3["out"], osnap, same_class=False)))
+    return dict(obs=o, asserts=asserts, facts=facts)
+
+
+def regex_cases(tier):
+    out = []
+    N = 2
+    for o in (dict(), dict(default=True), dict(default=True, nan=True), dict(lazy=True), dict(default=True, lazyframe=True), dict(strict=True)):
+        out.append((f"PL/RX/" + ("/".join(f"{k}={x}" for k, x in o.items()) or "plain") + f"/N={N}", pl_regex_case, (N, o)))
+    return out
+
+
 def standard_cases(tier):
     """shapes shared by C04 (input unchanged, container kind) and C06 (channel) on polars"""
     out = []
     N = 2
+    # joint uniqueness over a column that may be absent (optional or missing), eager and lazy
+    for arr in (["a"], ["b"], ["a", "b"]):
+        for lz in (False, True):
+            oo = dict(unique=["a", "b"], lazy=lz, b_required_concrete=False, fixpoint=False)
+            out.append((_tid("K", arr, N, oo), pl_frame_case, (arr, N, oo)))
+    out += regex_cases(tier)
     for lazyframe in (False, True):
         for o in (dict(), dict(lazy=True), dict(coerce="col", a_kind="int"), dict(default=True), dict(strict="filter"), dict(drop=True), dict(unique=["a", "b"]),
                   dict(unique=["a", "b"], lazy=True), dict(nan=True), dict(add_missing=True)):
